@@ -73,6 +73,7 @@ struct HeapViolation {
 };
 
 void heap_reset_run(const HeapConfig &cfg);  // start of a run: new config, registries must be empty
+void heap_set_knobs(int knobs, int cache_skip, int selfcheck, int realloc_mode, int sink); // OP_CONFIG
 void heap_begin_op(Backend b, int op_index, const OpFault &f);
 OpCounters heap_end_op();
 const OpCounters &heap_cur();
